@@ -490,3 +490,21 @@ Theorem C05_gen_mv_component_is_model : forall D tb q lookup c m,
   = call_component5 D tb q lookup (CMulti m) c.
 Proof. exact gen_mv_component_is_model. Qed.
 Print Assumptions C05_gen_mv_component_is_model.
+
+(* ---------------------------------------------------------------- round 10: accept= views (content negotiation) *)
+Theorem C05_accept_absent_plain : forall st cls eo o b d,
+  assoc nm_accept (o_kw o) = None -> derive1 st cls eo o b = Some d -> r_accept (d_reg d) = None.
+Proof. exact accept_absent_plain. Qed.
+Print Assumptions C05_accept_absent_plain.
+
+Theorem C05_accept_filed_under_offer : forall st cls eo o b d t,
+  assoc nm_accept (o_kw o) = Some [(false, VText t)] -> derive1 st cls eo o b = Some d ->
+  r_accept (d_reg d) = Some (mkOffer t t false).
+Proof. exact accept_filed_under_offer. Qed.
+Print Assumptions C05_accept_filed_under_offer.
+
+Theorem C05_winner_tags_without_accept : forall D q,
+  existsb has_accept (all_regs D) = false ->
+  winner_tags D q = map (fun v => stag (r_tag v)) (spec_winners view_classifier (all_regs D) (main_request q)).
+Proof. exact winner_tags_without_accept. Qed.
+Print Assumptions C05_winner_tags_without_accept.
